@@ -266,11 +266,22 @@ MC = {
     "C35": ("Snippet", lambda q: cfg({"Gap": 1, "MaxChars": 3 if q else 4, "Windows": "{0, 2, 4}", "Maxes": "{0, 1, 2}", "OccStarts": "{0, 1, 3, 7}",
                                       "OccLens": "{0, 1, 2}", "MaxOcc": 2}, invariants=["ContractHolds"])),
     "C29": ("Capsule", lambda q: cfg({"MaxChunks": 3 if q else 4}, invariants=["RoundTrip", "NeverWrongPlaintext", "TamperRejected"])),
+    "C30": ("MC_Codecs", lambda q: cfg({"U": "{0, 1, 3, 8}" if q else "{0, 1, 2, 3, 4, 5, 6, 7, 8}", "MaxEntries": 3 if q else 4},
+                                       invariants=["RoundTrip", "GuardsReject", "NeverDifferent"])),
     "C32": ("QueryLang", lambda q: cfg({"MaxDepth": 128, "BaseAtoms": '{"a", "b", "p"}' if q else '{"a", "b", "p", "t"}', "AstDepth": 2},
                                        invariants=["MeansWhatItSays"])),
 }
-GEN = {"C29": capsule_cases, "C31": footer_cases, "C37": adaptive_cases, "C35": snippet_cases, "C32": query_cases}
-WHAT = {"C29": "encryption::lock_file / unlock_file", "C31": "find_last_valid_footer", "C37": "find_adaptive_cutoff / normalize_scores", "C35": "compute_snippet_slices",
+def codec_cases(quick, rng):
+    """C30: the cases are the ones TLC enumerated and wrote out while model-checking MC_Codecs (spec -> impl)."""
+    path = os.path.join(_CASES_DIR["d"], "codec_cases.ndjson")
+    return [json.loads(l) for l in open(path) if l.strip()]
+
+
+_CASES_DIR = {}
+
+
+GEN = {"C30": codec_cases, "C29": capsule_cases, "C31": footer_cases, "C37": adaptive_cases, "C35": snippet_cases, "C32": query_cases}
+WHAT = {"C30": "HeaderCodec / CommitFooter / Toc / time-index encode and decode", "C29": "encryption::lock_file / unlock_file", "C31": "find_last_valid_footer", "C37": "find_adaptive_cutoff / normalize_scores", "C35": "compute_snippet_slices",
         "C32": "parse_query + ParsedQuery::evaluate"}
 
 
@@ -281,7 +292,7 @@ def trace_cfg(debug=False):
 DRIFT = []
 
 
-def validate_chunk(lines, wd, tag, max_fail=40):
+def validate_chunk(lines, wd, tag, max_fail=5):
     """Validates one chunk of the recording; a rejected line is diagnosed (Debug run names the failed check), removed,
     and the rest is validated again, so one failure does not hide the others."""
     import re
@@ -315,7 +326,7 @@ def validate_chunk(lines, wd, tag, max_fail=40):
     return accepted, failures, len(lines)
 
 
-def validate_lines(lines, wd, tag, max_fail=40, jobs=8):
+def validate_lines(lines, wd, tag, max_fail=5, jobs=8):
     import concurrent.futures as cf
     if len(lines) < 200:
         return validate_chunk(lines, wd, tag, max_fail)
@@ -334,7 +345,11 @@ def validate_lines(lines, wd, tag, max_fail=40, jobs=8):
 def run_prop(prop, tier, out: Outcome):
     quick = tier == "quick"
     module, mk = MC[prop]
-    mc = run_tlc(module, mk(quick), "mc" + prop, workers=6 if quick else 14, timeout=900 if quick else 3000)
+    mc_env = None
+    if prop == "C30":
+        _CASES_DIR["d"] = workdir("casesC30")
+        mc_env = {"CASES": os.path.join(_CASES_DIR["d"], "codec_cases.ndjson")}
+    mc = run_tlc(module, mk(quick), "mc" + prop, workers=6 if quick else 14, timeout=900 if quick else 3000, env=mc_env)
     if mc.error:
         log(mc.output[-3000:])
         raise ToolError("TLC failed on " + module)
@@ -383,6 +398,10 @@ def run_prop(prop, tier, out: Outcome):
             o["cut"] = o.get("cut", 0) + 100
         elif prop == "C35":
             o["slices"] = o.get("slices", []) + [[0, 1], [0, 1]]
+        elif prop == "C30":
+            ev = next(json.loads(x) for x in lines if json.loads(x)["in"]["m"]["k"] == "none" and json.loads(x)["in"]["codec"] == "footer")
+            o = ev["out"]
+            o["dec"] = {"ok": False}
         else:
             o["res"] = "panic"
         cp = os.path.join(wd, "corrupt.ndjson")
